@@ -739,11 +739,39 @@ Qed.
 Lemma first_org_ok h s c : first_org h s = Ok c -> exists k r, sp_orgs s = k :: r /\ hget h k = Ok c.
 Proof. unfold first_org. destruct (sp_orgs s) as [|k r]; [discriminate|]. eauto. Qed.
 
-Lemma set_champ_super_ok h s n h1 : set_champ_super h s n = Ok h1 -> hframe o_species h h1.
+(* species pointer and elimination mark: what the phases after adjustFitness leave alone *)
+Definition pe (x : organism) : Z * bool := (o_species x, o_elim x).
+
+Lemma hframe_comp {A B} (f : organism -> A) (g : A -> B) h h' :
+  hframe f h h' -> hframe (fun x => g (f x)) h h'.
+Proof.
+  intros F k. specialize (F k). unfold hview in *.
+  destruct (hget h' k), (hget h k); try discriminate; try reflexivity. injection F as ->. reflexivity.
+Qed.
+
+Lemma hext_comp {A B} (f : organism -> A) (g : A -> B) h h' :
+  hext f h h' -> hext (fun x => g (f x)) h h'.
+Proof.
+  intros E k b Hb. apply hview_some in Hb. destruct Hb as (x & Hx & <-).
+  pose proof (E k (f x) (hview_get f _ _ _ Hx)) as V. apply hview_some in V. destruct V as (y & Hy & Ey).
+  rewrite (hview_get _ _ _ _ Hy). now rewrite Ey.
+Qed.
+
+Lemma hext_pe_species h h' : hext pe h h' -> hext o_species h h'.
+Proof. intros F. exact (hext_comp pe fst h h' F). Qed.
+Lemma hext_pe_elim h h' : hext pe h h' -> hext o_elim h h'.
+Proof. intros F. exact (hext_comp pe snd h h' F). Qed.
+
+Lemma hframe_pe_species h h' : hframe pe h h' -> hframe o_species h h'.
+Proof. intros F. exact (hframe_comp pe fst h h' F). Qed.
+Lemma hframe_pe_elim h h' : hframe pe h h' -> hframe o_elim h h'.
+Proof. intros F. exact (hframe_comp pe snd h h' F). Qed.
+
+Lemma set_champ_super_ok h s n h1 : set_champ_super h s n = Ok h1 -> hframe pe h h1.
 Proof.
   unfold set_champ_super. intros H. rbind H as c Hc. injection H as <-.
   apply first_org_ok in Hc. destruct Hc as (k & r & _ & Hk).
-  apply (hframe_hset_get o_species h c); [|reflexivity]. cbn. now rewrite (hget_key _ _ _ Hk).
+  apply (hframe_hset_get pe h c); [|reflexivity]. cbn. now rewrite (hget_key _ _ _ Hk).
 Qed.
 
 Lemma forall2_sim_ids l l1 : Forall2 sp_sim l l1 -> map sp_id l1 = map sp_id l.
@@ -783,6 +811,11 @@ Record Part (p : population) : Prop := {
   (* fresh keys are fresh; no species is detached between epochs *)
   part_bound : hbound (p_heap p) (p_next_key p);
   part_detached : p_detached p = [] }.
+
+(* no organism of the population carries a stale elimination mark *)
+Definition fresh_keys (h : list organism) (ks : list Z) : Prop :=
+  forall k x, In k ks -> hget h k = Ok x -> o_elim x = false.
+Definition Fresh (p : population) : Prop := fresh_keys (p_heap p) (p_orgs p).
 
 Lemma nodup_members_same l a b k :
   NoDup (members l) -> In a l -> In b l -> In k (sp_orgs a) -> In k (sp_orgs b) -> a = b.
